@@ -178,6 +178,7 @@ func propC15(w *World, r *Report, tier string) {
 	})
 	r.Expect("seq.all-items", 6)
 	checkComponentRoundTrip(w, r)
+	checkQoSRuleRoundTrip(w, r)
 	r.Expect("seq.must-read", 5)
 	r.Expect("seq.fresh-elem", 6)
 	// factories
@@ -568,4 +569,164 @@ func checkComponentRoundTrip(w *World, r *Report) {
 		}
 	}
 	r.Expect("comp.roundtrip", 12)
+}
+
+// checkQoSRuleRoundTrip (rule.roundtrip): QoSRules.MarshalBinary followed by UnmarshalBinary,
+// evaluated (E2) on a one-rule list for each operation code 1..6 and 0 or 2 packet filters (no
+// components), returns the rule that was serialised: identifier, operation, DQR, precedence,
+// segregation, QFI (6 bits), the number of packet filters and each filter's identifier (4 bits)
+// and — except for the delete-filters operation, which carries identifiers only — direction
+// (2 bits), for all values of those fields.  A count octet that does not describe what follows
+// it, a filter list dropped for some operation, or a field packed into the wrong bits breaks it.
+func checkQoSRuleRoundTrip(w *World, r *Report) {
+	fm := w.LookupFunc("nasType", "QoSRules.MarshalBinary")
+	fu := w.LookupFunc("nasType", "QoSRules.UnmarshalBinary")
+	if fm == nil || fu == nil {
+		r.Fail("anchor", "nasType.QoSRules", "MarshalBinary/UnmarshalBinary", token.NoPos, "serialiser or parser not found", nil)
+		return
+	}
+	r.Fn(FuncName(fm))
+	r.Fn(FuncName(fu))
+	zext := func(it *Interp, name string, bits, w int) BV {
+		v := it.SrcBV(name, bits)
+		out := BV{W: w, B: make([]*Node, w)}
+		for i := 0; i < w; i++ {
+			if i < bits {
+				out.B[i] = v.B[i]
+			} else {
+				out.B[i] = it.T.Const(false)
+			}
+		}
+		return out
+	}
+	for op := 1; op <= 6; op++ {
+		for _, nf := range []int{0, 2} {
+			r.Site("rule.roundtrip")
+			what := fmt.Sprintf("operation %d, %d packet filters", op, nf)
+			it := NewInterp(w)
+			it.Fuel = 200000
+			it.PreferNonNilSlice = true
+			it.CheckBounds = true
+			readerModels(it)
+			st := it.NewState()
+			seedIOErrors(it, st)
+			// the list object: *QoSRules -> slice of one rule
+			lo := it.NewObj("rules", false)
+			ro := it.NewObj("rule", false)
+			fo := it.NewObj("filters", false)
+			st.mem[fo] = map[string]Value{}
+			type filt struct{ id, dir BV }
+			var fs []filt
+			for k := 0; k < nf; k++ {
+				f := filt{id: zext(it, fmt.Sprintf("f%d.id", k), 4, 8), dir: zext(it, fmt.Sprintf("f%d.dir", k), 2, 8)}
+				fs = append(fs, f)
+				co := it.NewObj(fmt.Sprintf("f%d.components", k), false)
+				st.mem[co] = map[string]Value{}
+				st.mem[fo][fmt.Sprintf("[%d].Identifier", k)] = f.id
+				st.mem[fo][fmt.Sprintf("[%d].Direction", k)] = f.dir
+				st.mem[fo][fmt.Sprintf("[%d].Components", k)] = SliceV{Obj: co, Len: 0}
+			}
+			want := map[string]BV{
+				".Identifier": it.SrcBV("rule.id", 8),
+				".Operation":  it.constBV(uint64(op), 8),
+				".DQR":        it.SrcBV("rule.dqr", 1),
+				".Precedence": it.SrcBV("rule.prec", 8),
+				".Segregation": it.SrcBV("rule.seg", 1),
+				".QFI":        zext(it, "rule.qfi", 6, 8),
+			}
+			st.mem[ro] = map[string]Value{}
+			for k, v := range want {
+				st.mem[ro]["[0]"+k] = v
+			}
+			st.mem[ro]["[0].PacketFilterList"] = SliceV{Obj: fo, Len: nf}
+			st.mem[lo] = map[string]Value{"": SliceV{Obj: ro, Len: 1}}
+			res := it.Call(w.SSAFunc(fm), []Value{Ptr{Obj: lo}}, st, 0)
+			tv, isT := res.(TupleV)
+			good, why := true, ""
+			var out SliceV
+			if len(it.Unsup) > 0 || !isT || len(tv) != 2 {
+				good, why = false, fmt.Sprintf("undecided (serialiser): %v", it.Unsup)
+			} else {
+				var okS bool
+				out, okS = tv[0].(SliceV)
+				n1, okE := it.errNil(tv[1])
+				if !okS || !okE || out.Nil || out.Len < 0 {
+					good, why = false, "the serialised octets have no fixed length"
+				} else if n1 != it.T.one {
+					good, why = false, "the serialiser returns an error for a well-formed rule"
+				}
+			}
+			var po *MemObj
+			if good {
+				po = it.NewObj("parsed", false)
+				st.mem[po] = map[string]Value{"": SliceV{Nil: true, Len: 0}}
+				res2 := it.Call(w.SSAFunc(fu), []Value{Ptr{Obj: po}, out}, st, 0)
+				n2, okE := it.errNil(res2)
+				switch {
+				case len(it.Unsup) > 0 || !okE:
+					good, why = false, fmt.Sprintf("undecided (parser): %v", it.Unsup)
+					for _, u := range it.Unsup {
+						if strings.Contains(u, "(*bytes.Buffer).Next") {
+							why += " — the parser takes a length or count from an octet that holds a field value: a count or length the serialiser wrote does not describe what follows it"
+							break
+						}
+					}
+				case n2 != it.T.one:
+					good, why = false, "the parser rejects (for some field values) the octets the serialiser produced: error is nil iff "+n2.Short(4)
+				}
+			}
+			if good {
+				pl, isSl := st.mem[po][""].(SliceV)
+				if !isSl || pl.Nil || pl.Len != 1 {
+					n := 0
+					if isSl && !pl.Nil {
+						n = pl.Len
+					}
+					good, why = false, fmt.Sprintf("%d rules come back, 1 was serialised", n)
+				} else {
+					base := it.sliceElemPtr(pl, 0)
+					for _, k := range []string{".Identifier", ".Operation", ".DQR", ".Precedence", ".Segregation", ".QFI"} {
+						t := types.Type(u8T)
+						if want[k].W == 1 {
+							t = types.Typ[types.Bool]
+						}
+						got := it.load(st, Ptr{Obj: base.Obj, Path: base.Path + k}, t)
+						if same, m := sameBV(it, got, want[k]); !same {
+							good, why = false, "field "+strings.TrimPrefix(k, ".")+" does not come back as serialised: "+m
+							break
+						}
+					}
+					if good {
+						fl, isF := it.load(st, Ptr{Obj: base.Obj, Path: base.Path + ".PacketFilterList"}, types.NewSlice(u8T)).(SliceV)
+						n := 0
+						if isF && !fl.Nil {
+							n = fl.Len
+						}
+						if !isF || n != nf {
+							good, why = false, fmt.Sprintf("%d packet filters come back, %d were serialised", n, nf)
+						}
+						for k := 0; good && k < nf; k++ {
+							ep := it.sliceElemPtr(fl, k)
+							gid := it.load(st, Ptr{Obj: ep.Obj, Path: ep.Path + ".Identifier"}, u8T)
+							if same, m := sameBV(it, gid, fs[k].id); !same {
+								good, why = false, fmt.Sprintf("packet filter %d identifier does not come back: %s", k, m)
+							}
+							if good && op != 5 {
+								gd := it.load(st, Ptr{Obj: ep.Obj, Path: ep.Path + ".Direction"}, u8T)
+								if same, m := sameBV(it, gd, fs[k].dir); !same {
+									good, why = false, fmt.Sprintf("packet filter %d direction does not come back: %s", k, m)
+								}
+							}
+						}
+					}
+				}
+			}
+			if good {
+				r.OK("rule.roundtrip")
+			} else {
+				r.Fail("rule.roundtrip", FuncName(fm), what, fm.Pos(), "Unmarshal(Marshal(rule)) is not the rule ("+what+"): "+why, nil)
+			}
+		}
+	}
+	r.Expect("rule.roundtrip", 12)
 }
